@@ -74,6 +74,9 @@ func (c *Ctx) valueLanguage(v ssa.Value, fn *ssa.Function, depth int) (*rx.Lang,
 			if cc == nil || staticFn(cc) != fn || idx >= len(cc.Args) {
 				continue
 			}
+			if !c.liveFn(e.Caller) {
+				continue // a function no command can reach (kept for the tests): it inserts nothing at run time
+			}
 			l, w, why := c.valueLanguage(cc.Args[idx], e.Caller, depth+1)
 			if l == nil {
 				return nil, "", why
@@ -783,4 +786,19 @@ func inInnerLoopOf(a, b *ssa.BasicBlock, fn *ssa.Function, outer *natLoop) bool 
 		}
 	}
 	return false
+}
+
+// liveFn: fn is reachable from a command entry point or a global root (init, main, cobra wiring).
+func (c *Ctx) liveFn(fn *ssa.Function) bool {
+	if c.live == nil {
+		var roots []*ssa.Function
+		for _, cmd := range c.Commands().Commands {
+			roots = append(roots, c.CommandRoots(cmd)...)
+		}
+		c.live = map[*ssa.Function]bool{}
+		for f := range c.Graph().Reach(roots) {
+			c.live[f] = true
+		}
+	}
+	return c.live[fn]
 }
